@@ -61,16 +61,16 @@ CLAIMED = {
             "C31_transparent, C31_no_writes, C31_reads, C31_only_in_direction over the model of analyze_toll; evaluate_mapping on random specs with a Toll level (per-tensor directions) is compared with a forwarding execution and with the vm_compute-evaluated model (every action, latency, energy column; no Toll writes / occupancy); real map_workload_to_arch runs on a two-Einsum Toll architecture check that no returned mapping has a Toll as outermost holder of the shared tensor. The mapper's template generation is not modelled (clause 3 is oracle-only).",
             "Coq kernel; MiniForge class (single Einsum, temporal loops) for the accounting; clause 3 checked on mapper outputs only"),
     "C01": ("Coq proof (exhaustive enumerator = declarative mapspace; reference optimum is a lower bound over every valid mapping and is attained; infeasibility) over the MiniForge cost model proved equal to execution (C05) + comparison of the real mapper's optimum with the proven optimum",
-            "C01_space_exact, C01_opt_is_lower_bound, C01_opt_attained, C01_infeasible for every MiniForge spec; map_workload_to_arch is run with ENERGY, LATENCY and EDP on random single-Einsum specs (keep/may_keep sets, finite memories, overrides) and its best objective compared with the exhaustively enumerated optimum (python twin on every case, the Coq opt by vm_compute where the space is small, twin = Coq checked); a better reference mapping is confirmed with the real evaluate_mapping before it is reported. PARTIAL: one Einsum only (no fusion), no spatial fanout, no loop-bound constraints.",
-            "Coq kernel; MiniForge/MiniSpace class; capacity = accelforge's own usage computation; two fix: commits (constant templates skipped validity checks / aborted the mapper) found by this check"),
+            "C01_space_exact, C01_opt_is_lower_bound, C01_opt_attained, C01_infeasible for every MiniForge spec; map_workload_to_arch is run with ENERGY, LATENCY and EDP on random single-Einsum specs (keep/may_keep sets, finite memories, overrides) and its best objective compared with the exhaustively enumerated optimum (python twin on every case, the Coq opt by vm_compute where the space is small, twin = Coq checked); a better reference mapping is confirmed with the real evaluate_mapping before it is reported; plus two witness streams judged by the real model: concrete fused mappings of 2-matmul chains (fused loops over m and / or n1, every divisor tile) must not beat the mapper, and on spatial-array specs with a loop-bound constraint a mapper exception is a violation when the unconstrained optimum satisfies the constraint. PARTIAL: the theorem covers one Einsum (no fusion), no spatial fanout; fused and constrained mapspaces are covered by witnesses only.",
+            "Coq kernel; MiniForge/MiniSpace class; capacity = accelforge's own usage computation; fix: commits F10 (constant templates skipped validity checks / aborted the mapper) and F14 (constant loop-bound objectives crashed tile-shape exploration) found by this check"),
     "C02": ("Coq proof (front of a finite set of objective vectors is complete, minimal, duplicate-free and achieved) + comparison of the real mapper's returned front with the front of the exhaustively enumerated mapspace",
             "C02_complete, C02_minimal, C02_distinct (AF.Lib.Front); map_workload_to_arch with ENERGY|LATENCY (and RESOURCE_USAGE) on random single-Einsum specs: returned vectors mutually non-dominated, distinct, and every point of the reference front weakly dominated by a returned mapping; the Coq front is evaluated on the scaled vectors of the enumerated space and compared with the twin. PARTIAL: MiniForge class (one Einsum).",
             "Coq kernel; objective vectors scaled to integers by the harness"),
     "C03": ("Coq proof (the verified checker in_space certifies perfect factorisation, full iteration of every rank variable, one compute per iteration point, keep sets satisfied, capacity) + certified checking of every mapping the real mapper returns",
-            "C03_valid, C03_compute_once, C03_capacity; every mapping returned by map_workload_to_arch (four metric sets, eval_in_detail on/off) on random specs is converted to MiniForge nodes, checked by in_space inside Coq and by its twin, and re-evaluated by the real evaluate_mapping. PARTIAL: loop-bound constraints, spatial fanouts and fused-loop limits are outside the class.",
+            "C03_valid, C03_compute_once, C03_capacity; every mapping returned by map_workload_to_arch (four metric sets, eval_in_detail on/off) on random specs is converted to MiniForge nodes, checked by in_space inside Coq and by its twin, and re-evaluated by the real evaluate_mapping; a second stream maps spatial-array specs with random loop-bound constraints (>=, >, <=, <, ==) and checks every returned LoopTree structurally (perfect factorisation, full iteration, one compute, fanout, the constraint). PARTIAL: loop-bound constraints and spatial fanouts are checked by the harness, not by the Coq checker; fused-loop limits are not checked.",
             "Coq kernel; the Mapping-object -> MiniForge printer is glue (cross-checked by the real model's own validity check)"),
     "C04": ("Coq proof (model = execution per Einsum from C05; totals compose additively, EDP is the product of totals) + three-way differential check per returned mapping",
-            "C04_totals_additive, C04_single, C04_edp_is_product_of_totals; for every returned mapping the joiner's columns, the eval_in_detail re-evaluation, a standalone evaluate_mapping of the reconstructed mapping and (single Einsum) the Coq MiniForge model are compared; 2-3-Einsum matmul chains (fused/unfused) joiner vs model. PARTIAL: fused mappings are compared code-vs-code only.",
+            "C04_totals_additive, C04_single, C04_edp_is_product_of_totals; for every returned mapping the joiner's columns, the eval_in_detail re-evaluation, a standalone evaluate_mapping of the reconstructed mapping and (single Einsum) the Coq MiniForge model are compared; 2-3-Einsum matmul chains (fused/unfused, with RESOURCE_USAGE so that front rows share templates) joiner vs model, and chains on generated architectures with an Einsum-dependent attribute joiner vs STANDALONE evaluate_mapping of the mapping each row denotes. PARTIAL: fused mappings are compared code-vs-code only.",
             "Coq kernel; float32 tolerance 2e-5"),
     "C17": ("Coq proof (coordinate optima and the optimum of the product of two non-negative coordinates are attained on the Pareto front; the front lies within the set) + four mapper runs per spec",
             "C17_coordinate_optima, C17_front_within_space, C17_edp (AF.Lib.Front); ENERGY, LATENCY, ENERGY|LATENCY and EDP runs of the real mapper on random specs: the three equalities of the property, EDP column = energy x latency on every row, each optimum also against the exhaustive reference. PARTIAL: MiniForge class.",
@@ -94,16 +94,16 @@ CLAIMED = {
             "C12_zero_tol_exact, C12_const_cols, C12_classify, C12_tol_bound; the real makepareto is run on random pmapping tables (objective, reservation, fused-loop, n_iterations, tensor, per-Einsum and mapping columns, constant columns, shuffled order): at zero tolerance the kept index set equals the vm_compute-evaluated model and the declarative oracle, with tolerances every dropped row is (1+t)-dominated by a kept row with equal fused shapes; the rounding hypothesis is validated on numpy's log-grid rounding.",
             "Coq kernel; values as ranks; numpy rounding outside the model (hypothesis of C12_tol_bound)"),
     "C07": ("Coq proof (a symbolic evaluator over an expression language mirrors the analytical model node for node; its formulas denote, under every assignment, the concrete model's and - on perfect assignments - the brute-force execution's counts of the instantiated mapping; same for holder occupancies) + the real run_model formulas, captured inside a real mapper run, against concrete evaluation at every perfect assignment",
-            "C07_symbolic_is_concrete, C07_symbolic_is_execution, C07_symbolic_occupancy; every pmapping template the real mapper builds for random single-Einsum specs is captured together with run_model's formulas; at every perfect assignment (capped per template) every formula (latency, dynamic / leak energy, per-component actions, per-memory usage) is evaluated by exact substitution and by the code's own compile_dict path and compared with the concrete evaluation of the instantiated mapping (python twin of MiniForge for all, real evaluate_mapping for a sample); the rows of the table _make_tile_shapes emits are compared the same way; the Coq symbolic evaluator is run on the same templates. PARTIAL: single Einsum, temporal loops and memories (MiniForge class); sympy / symengine / lambdify are oracles.",
+            "C07_symbolic_is_concrete, C07_symbolic_is_execution, C07_symbolic_occupancy; every pmapping template the real mapper builds for random single-Einsum specs is captured together with run_model's formulas; at every perfect assignment (capped per template) every formula (latency, dynamic / leak energy, per-component actions, per-memory usage) is evaluated by exact substitution and by the code's own compile_dict path and compared with the concrete evaluation of the instantiated mapping (python twin of MiniForge for all, real evaluate_mapping for a sample); the rows of the table _make_tile_shapes emits are compared the same way; the Coq symbolic evaluator is run on the same templates; on architectures with spatial fanouts (outside MiniForge) the compiled-formula values of every returned mapping are compared with the standalone concrete evaluation of that mapping by the real model. PARTIAL: the theorem covers single Einsum, temporal loops and memories (MiniForge class); sympy / symengine / lambdify are oracles.",
             "Coq kernel; MiniForge modelled class; sympy arithmetic trusted as oracle and checked end to end"),
     "C08": ("Coq proof (symbol-by-symbol enumeration with Pareto pruning of partial assignments on a criteria vector emits, after Pareto filtering, exactly the objective vectors of the Pareto-filtered exhaustive enumeration - any number of symbols, prefix-dependent candidates, any validity and objectives - under soundness of the criteria; a boolean check decides that hypothesis on concrete spaces; unsound criteria refuted by witness) + the real _make_tile_shapes table against exhaustive enumeration of every perfect assignment of every captured template",
             "C08_pruned_front_exact, C08_pruned_subset, C08_checked_instance, C08_unsound_criteria_refuted; for every pmapping template of real mapper runs on random single-Einsum specs (bounds up to 36, up to 5 symbols, finite buffers) the Pareto front of the emitted table equals the front over ALL valid perfect assignments (validity and objectives from the template's own formulas, cross-checked against the python twin; formulas tied to concrete evaluation by C07). PARTIAL: the soundness of the real criteria (built from C09's verdicts inside get_tile_shape_choices) is the theorem's hypothesis, tested not proved; single Einsum, temporal loops and memories.",
             "Coq kernel; criteria soundness is a hypothesis, exercised by the correspondence"),
     "C13": ("Coq proof (abstract join algebra: for ANY key-compatibility function, ANY monotone combination of vectors, ANY downward-closed capacity test and ANY number of tables the step-by-step join with per-key Pareto pruning of every table and every partial result emits only exhaustive combinations and covers each of them key by key, hence has the same front; pair semantics; hypothesis-free instance) + the real table join against combinations of single pmappings",
-            "C13_staged_is_exhaustive, C13_pair, C13_instance; on real per-Einsum pmapping tables of random 2-3 Einsum chains (fused and unfused, tight buffers, tensors living across Einsums, max_fused_loops variations) every front row of the table-level join is reproduced by joining exactly its constituent single pmappings with objectives equal to the sums of the parts, and no combination of single pmappings (all of them when few, a random sample otherwise) beats the returned front. PARTIAL: that Compatibility.merge_next / PmappingDataframe.merge_next form a compatibility function and a monotone combination is the theorem's hypothesis; the pair primitives are shared by both sides of the correspondence (reservation arithmetic of a single pair is checked only through C06 for one Einsum); join orders other than workload order are not explored.",
+            "C13_staged_is_exhaustive, C13_pair, C13_instance; on real per-Einsum pmapping tables of random 2-3 Einsum chains (fused and unfused, tight buffers, tensors living across Einsums, max_fused_loops variations) every front row of the table-level join is reproduced by joining exactly its constituent single pmappings with objectives equal to the sums of the parts, and no combination of single pmappings (all of them when few, a random sample otherwise) beats the returned front; the GlobalBuffer usage every joined row reports is bounded by the sum of the full tiles of the storage nodes on a path of the joined LoopTree. PARTIAL: that Compatibility.merge_next / PmappingDataframe.merge_next form a compatibility function and a monotone combination is the theorem's hypothesis; the pair primitives are shared by both sides of the correspondence (reservation arithmetic of a single pair is checked only through C06 for one Einsum); join orders other than workload order are not explored.",
             "Coq kernel; pair-merge primitives trusted (shared by both sides)"),
     "C14": ("Coq proof (over the same join algebra: optimality-threshold row filtering on an achievable solution keeps the objective front for any number of tables; a relaxed-capacity join whose result is valid has exactly the valid front, and the validity check / retry is necessary (witness); a capacity test that is never decisive can be skipped) + the public staged join against one exact join of the current source with every acceleration off",
-            "C14_threshold_filter_exact, C14_relaxed_join_exact, C14_retry_needed, C14_untracked_memory, C14_instance; on real pmapping tables of random 2-3 Einsum chains under five metric sets (with and without RESOURCE_USAGE, EDP) the front of join_pmappings (dirty rounds, thresholds, optimality filter, lookahead, untracked memories, combined reservations) equals the front of ONE direct join with RESOURCE_USAGE tracking of every memory, reservations not combined and lookahead switched off by an in-process source transformation. PARTIAL: that the real thresholds come from achievable solutions and that untracked memories are never decisive are hypotheses, tested not proved; the oversubscription-retry path is rarely reached by the generator (counted in the evidence).",
+            "C14_threshold_filter_exact, C14_relaxed_join_exact, C14_retry_needed, C14_untracked_memory, C14_instance; on real pmapping tables of random 2-3 Einsum chains under five metric sets (with and without RESOURCE_USAGE, EDP) the front of join_pmappings (dirty rounds, thresholds, optimality filter, lookahead, untracked memories, combined reservations) equals the front of ONE direct join on tables made with every memory tracked (RESOURCE_USAGE metrics, can_combine_multiple_runs), reservations not combined and lookahead switched off by an in-process source transformation; the generator includes tapering chains whose buffer fits the last Einsum but not the workload. PARTIAL: that the real thresholds come from achievable solutions and that untracked memories are never decisive are hypotheses, tested not proved; the oversubscription-retry path is rarely reached by the generator (counted in the evidence).",
             "Coq kernel; exact reference = current join_pmappings source run once without accelerations"),
 }
 
